@@ -157,7 +157,7 @@ def is_info(p):
     return p.endswith('.trashinfo') and '/info/' in p
 
 
-def norm(v, p='', dir_mtime=False, info_mtime=False, all_mtime=True):
+def norm(v, p='', dir_mtime=False, info_mtime=False, all_mtime=True, link_mtime=False):
     """normalise a node value for comparison"""
     if v[0] == 'd':
         return ('d', v[1], v[2] if dir_mtime else 0)
@@ -165,7 +165,7 @@ def norm(v, p='', dir_mtime=False, info_mtime=False, all_mtime=True):
         keep = all_mtime and (info_mtime or not is_info(p))
         return ('f', v[1], v[2] if keep else 0, v[3])
     if v[0] == 'l':
-        return ('l', v[1], v[2] if all_mtime else 0)
+        return ('l', v[1], v[2] if (all_mtime and link_mtime) else 0)
     return v
 
 
